@@ -7,3 +7,6 @@ func VerifPolymod(values []int) int { return bech32Polymod(values) }
 
 // VerifHrpExpand exposes the hrp expansion.
 func VerifHrpExpand(hrp string) []int { return bech32HrpExpand(hrp) }
+
+// VerifVerifyChecksum exposes the acceptance test itself.
+func VerifVerifyChecksum(hrp string, data []byte) bool { return bech32VerifyChecksum(hrp, data) }
